@@ -2,7 +2,7 @@
 from .. import common, gen, trees
 
 LEVEL = "proof"
-EXTRA_LEAN_MODULES = ["Luqum.Props.GenClone", "Luqum.Props.GenContext", "Luqum.Props.GenChildren"]   # clone_item translated from the source (tools/pysym.py)
+EXTRA_LEAN_MODULES = ["Luqum.Props.GenClone", "Luqum.Props.GenContext", "Luqum.Props.GenChildren", "Luqum.Props.GenVisit"]   # clone_item translated from the source (tools/pysym.py)
 RULE = ("histories of visits: 2-4 probe visitor classes (handlers for a random subset of item classes and base "
         "classes, traversal not overridden) x 1-2 instances each x 2-4 trees (parsed and programmatic, operations "
         "with 0..n operands, NoneItem); plus the default TreeTransformer / PathTrackingTransformer on every tree. "
